@@ -211,3 +211,188 @@ Proof.
   intros Hs Hf. destruct (unchanged_or_true o t Hs) as [|E]; [done|].
   rewrite E in Hf. by apply not_failed_true in Hf.
 Qed.
+
+(* ---- basename / dirname / join_path ------------------------------------------------------------------------ *)
+Definition nonslash (c : N) : bool := negb (is_slash c).
+(* a file name: not empty, no separator *)
+Definition is_name (n : str) : Prop := n <> [] /\ forallb nonslash n = true.
+(* a directory text as join_path returns it: not empty, no doubled separator, no trailing separator *)
+Definition is_clean (d : str) : Prop := d <> [] /\ has_dslash d = false /\ head_slash (rev d) = false.
+
+Lemma name_no_slashes n : forallb nonslash n = true -> has_dslash n = false /\ head_slash n = false.
+Proof.
+  induction n as [|c n IH]; [done|]. cbn [forallb]. intros [Hc Hn]%andb_true_iff.
+  destruct (IH Hn) as [H1 H2]. rewrite has_dslash_cons, H1. cbn [head_slash].
+  unfold nonslash in Hc. apply negb_true_iff in Hc. by rewrite Hc.
+Qed.
+Lemma head_slash_rev_cons c (l : str) : l <> [] -> head_slash (rev (c :: l)) = head_slash (rev l).
+Proof.
+  intros Hl. cbn [rev]. destruct (rev l) eqn:E; [|done].
+  apply (f_equal (@length N)) in E. rewrite rev_length in E. by destruct l.
+Qed.
+Lemma clean_join_no_dslash d n :
+  is_clean d -> forallb nonslash n = true -> has_dslash (d ++ c_slash :: n) = false.
+Proof.
+  intros (Hd & Hds & Hl) Hn. destruct (name_no_slashes n Hn) as [Hn1 Hn2].
+  induction d as [|c|c e d' _ IH] using list_ind2; [done| |].
+  - cbn [app]. rewrite !has_dslash_cons, Hn1, Hn2. cbn [head_slash rev app] in *. rewrite Hl.
+    by rewrite andb_false_r.
+  - change ((c :: e :: d') ++ c_slash :: n) with (c :: (e :: d') ++ c_slash :: n).
+    rewrite has_dslash_cons in Hds |- *. apply orb_false_iff in Hds as [H1 H2].
+    cbn [head_slash app] in *. rewrite H1. cbn [orb]. apply IH; [done|done|].
+    by rewrite head_slash_rev_cons in Hl.
+Qed.
+Theorem join_two d n : is_clean d -> is_name n -> S_join [d; n] = d ++ c_slash :: n.
+Proof.
+  intros Hd [_ Hn]. unfold S_join. cbn [join_with_slash]. apply squeeze_id. by apply clean_join_no_dslash.
+Qed.
+Theorem join_idempotent l : S_join [S_join l] = S_join l.
+Proof.
+  unfold S_join. cbn [join_with_slash]. apply squeeze_id.
+  generalize (join_with_slash l). intros s.
+  induction s as [|c|c e r IH1 IH2] using list_ind2; [done|done|].
+  rewrite (squeeze_cons c (e :: r)). cbn [head_slash].
+  destruct (is_slash c && is_slash e) eqn:E; [done|].
+  rewrite has_dslash_cons, IH2. rewrite orb_false_r.
+  assert (head_slash (squeeze (e :: r)) = is_slash e) as ->; [|done].
+  rewrite squeeze_cons. destruct (is_slash e && head_slash r) eqn:E2; [|done].
+  apply andb_true_iff in E2 as [-> E2]. clear -E2. revert E2.
+  induction r as [|x r IH]; [done|]. cbn [head_slash]. intros Hx. rewrite squeeze_cons, Hx.
+  destruct (head_slash r) eqn:Hr; cbn [andb]; [by apply IH|done].
+Qed.
+
+Lemma take_while_app f (a : str) c b :
+  forallb f a = true -> f c = false -> take_while f (a ++ c :: b) = a.
+Proof.
+  induction a as [|x a IH]; cbn [app take_while forallb]; [by intros _ ->|].
+  intros [-> Ha]%andb_true_iff Hc. by rewrite IH.
+Qed.
+Lemma drop_while_app f (a : str) c b :
+  forallb f a = true -> f c = false -> drop_while_rev f (a ++ c :: b) = c :: b.
+Proof.
+  induction a as [|x a IH]; cbn [app drop_while_rev forallb]; [by intros _ ->|].
+  intros [-> Ha]%andb_true_iff Hc. by rewrite IH.
+Qed.
+Lemma drop_while_head f (s : str) : (match s with c :: _ => f c | [] => false end) = false ->
+  drop_while_rev f s = s.
+Proof. destruct s as [|c s]; [done|]. cbn. by intros ->. Qed.
+Lemma forallb_rev (f : N -> bool) l : forallb f (rev l) = forallb f l.
+Proof.
+  induction l as [|x l IH]; [done|]. cbn [rev forallb]. rewrite forallb_app, IH. cbn. by rewrite andb_true_r, andb_comm.
+Qed.
+Lemma name_rev_head n : is_name n -> head_slash (rev n) = false.
+Proof.
+  intros [Hn Hf]. rewrite <- forallb_rev in Hf. destruct (rev n) as [|c r]; [done|].
+  cbn in *. apply andb_true_iff in Hf as [Hc _]. unfold nonslash in Hc. by apply negb_true_iff in Hc.
+Qed.
+
+Theorem basename_join d n : is_name n -> path_basename (d ++ c_slash :: n) = Some n.
+Proof.
+  intros Hn. pose proof (name_rev_head n Hn) as Hh. destruct Hn as [Hn Hf].
+  unfold path_basename. rewrite rev_app_distr. cbn [rev]. rewrite <- !app_assoc. cbn [app].
+  rewrite drop_while_head.
+  - rewrite (take_while_app _ (rev n)); [|by rewrite forallb_rev|done].
+    rewrite rev_involutive. by destruct n.
+  - destruct (rev n) eqn:E; [|done]. apply (f_equal (@length N)) in E. rewrite rev_length in E. by destruct n.
+Qed.
+Theorem dirname_join d n :
+  d <> [] -> head_slash (rev d) = false -> is_name n -> path_dirname (d ++ c_slash :: n) = Some d.
+Proof.
+  intros Hd Hdl Hn. pose proof (name_rev_head n Hn) as Hh. destruct Hn as [Hn Hf].
+  assert (rev (d ++ c_slash :: n) = rev n ++ c_slash :: rev d) as Hr.
+  { rewrite rev_app_distr. cbn [rev]. by rewrite <- app_assoc. }
+  assert (rev n <> []) as Hrn.
+  { intros E. apply (f_equal (@length N)) in E. rewrite rev_length in E. by destruct n. }
+  assert (rstrip_slash (d ++ c_slash :: n) = d ++ c_slash :: n) as E1.
+  { unfold rstrip_slash. rewrite drop_while_head; [by rewrite rev_involutive|].
+    rewrite Hr. by destruct (rev n). }
+  assert (rstrip_name (d ++ c_slash :: n) = d ++ [c_slash]) as E2.
+  { unfold rstrip_name. rewrite Hr. rewrite drop_while_app; [|by rewrite forallb_rev|done].
+    cbn [rev]. by rewrite rev_involutive. }
+  assert (rstrip_slash (d ++ [c_slash]) = d) as E3.
+  { unfold rstrip_slash. rewrite rev_app_distr. cbn [rev app drop_while_rev]. unfold is_slash at 1.
+    rewrite N.eqb_refl. rewrite drop_while_head; [by rewrite rev_involutive|]. by destruct (rev d). }
+  unfold path_dirname. rewrite E1. clear E1 Hr.
+  remember (d ++ c_slash :: n) as s eqn:E0. destruct s as [|x l]; [by destruct d|]. rewrite E2.
+  remember (d ++ [c_slash]) as s2 eqn:E4. destruct s2 as [|y l2]; [by destruct d|]. rewrite E3.
+  by destruct d.
+Qed.
+Theorem path_algebra d n :
+  is_clean d -> is_name n ->
+  path_basename (S_join [d; n]) = Some n /\ path_dirname (S_join [d; n]) = Some d /\
+  M_join [d; n] = Some (S_join [d; n]).
+Proof.
+  intros Hd Hn. rewrite join_two by done. split; [by apply basename_join|]. split.
+  - destruct Hd as (H1 & _ & H3). by apply dirname_join.
+  - rewrite M_join_S_join. by rewrite join_two.
+Qed.
+
+(* ---- the known classes are real: witnesses (computed) --------------------------------------------------------- *)
+Definition w_f : path := P [[102%N]] false.            (* f *)
+Definition w_t : path := P [[116%N]] false.            (* t *)
+Definition w_d : path := P [[100%N]] false.            (* d *)
+Definition w_df : path := P [[100%N]; [102%N]] false.  (* d/f *)
+Definition w_nx : path := P [[110%N]; [120%N]] true.   (* n/x/ *)
+
+Section Witness.
+Variables prn xdc xmd : path -> path -> tree -> pres.
+Notation M := (M_step prn xdc xmd).
+
+(* F15: mv f t with t missing, no extension: the commands make a directory t and put f inside;
+   the reference tree renames *)
+Lemma F15_witness :
+  let ops := [WriteB w_f [120%N]; Mv w_f w_t] in
+  in_domain ops ∅ /\ KnownF15 ops ∅ /\
+  (exists t', last (run M ops ∅) = Some (OVal s_true, t') /\ t' !! [[116%N]] = Some Dir /\
+              t' !! [[116%N]; [102%N]] = Some (File [120%N]) /\ t' !! [[102%N]] = None) /\
+  (exists t', last (run S_step ops ∅) = Some (OVal s_true, t') /\ t' !! [[116%N]] = Some (File [120%N]) /\
+              t' !! [[116%N]; [102%N]] = None /\ t' !! [[102%N]] = None).
+Proof.
+  cbn zeta. split; [|split; [|split]].
+  - split; [by vm_compute|]. split; [by vm_compute|done].
+  - right. left. by vm_compute.
+  - eexists. split; [vm_compute; reflexivity|]. by vm_compute.
+  - eexists. split; [vm_compute; reflexivity|]. by vm_compute.
+Qed.
+(* cp f f empties f *)
+Lemma cp_self_witness :
+  let ops := [WriteB w_f [120%N]; Cp w_f w_f] in
+  in_domain ops ∅ /\ KnownCpSelf ops ∅ /\
+  (exists t', last (run M ops ∅) = Some (OVal s_true, t') /\ t' !! [[102%N]] = Some (File [])) /\
+  (exists t', last (run S_step ops ∅) = Some (OVal s_true, t') /\ t' !! [[102%N]] = Some (File [120%N])).
+Proof.
+  cbn zeta. split; [|split; [|split]].
+  - split; [by vm_compute|]. split; [by vm_compute|done].
+  - right. left. by vm_compute.
+  - eexists. split; [vm_compute; reflexivity|]. by vm_compute.
+  - eexists. split; [vm_compute; reflexivity|]. by vm_compute.
+Qed.
+(* writing to n/x/ fails and leaves the directory n behind *)
+Lemma partial_parents_witness :
+  let ops := [WriteB w_nx [113%N]] in
+  in_domain ops ∅ /\ KnownPartialParents ops ∅ /\
+  (exists t', last (run M ops ∅) = Some (OVal s_false, t') /\ t' !! [[110%N]] = Some Dir) /\
+  last (run S_step ops ∅) = Some (OVal s_false, ∅).
+Proof.
+  cbn zeta. split; [|split; [|split]].
+  - split; [by vm_compute|done].
+  - left. by vm_compute.
+  - eexists. split; [vm_compute; reflexivity|]. by vm_compute.
+  - by vm_compute.
+Qed.
+(* mv f d with d/f present is refused; the reference tree overwrites like mv f d/f does *)
+Lemma mv_noclobber_witness :
+  let ops := [WriteB w_df [111%N]; WriteB w_f [110%N]; Mv w_f w_d] in
+  in_domain ops ∅ /\ KnownMvNoClobber ops ∅ /\
+  (exists t', last (run M ops ∅) = Some (OErr, t') /\ t' !! [[102%N]] = Some (File [110%N]) /\
+              t' !! [[100%N]; [102%N]] = Some (File [111%N])) /\
+  (exists t', last (run S_step ops ∅) = Some (OVal s_true, t') /\ t' !! [[102%N]] = None /\
+              t' !! [[100%N]; [102%N]] = Some (File [110%N])).
+Proof.
+  cbn zeta. split; [|split; [|split]].
+  - split; [by vm_compute|]. split; [by vm_compute|]. split; [by vm_compute|done].
+  - right. right. left. by vm_compute.
+  - eexists. split; [vm_compute; reflexivity|]. by vm_compute.
+  - eexists. split; [vm_compute; reflexivity|]. by vm_compute.
+Qed.
+End Witness.
